@@ -648,6 +648,36 @@ func runDrvConfig(t *testing.T, c drvCfg, r *rng, w *caseWriter, tags map[string
 		if c.last < 255 {
 			d.send(c.last + 1)
 		}
+		// a second run of the same protocol to the same target, alive at the same time, with the identifiers the
+		// allocators / the OS would hand it: each run is fed the other's genuine replies (shared capture)
+		c2 := c
+		switch c.variant {
+		case vIcmp:
+			c2.echoCounter = c.echoCounter + 1
+		default:
+			c2.sport = c.sport%65535 + 1
+			c2.baseID = (c.baseID + c.last) % 65536
+			c2.seq = c.seq + 0x01000000
+			c2.initSeq = c.initSeq + 0x01000000
+		}
+		sib := newDrvInst(c2, w, tags)
+		c2 = sib.cfg
+		if c2.variant == vSack && !sib.handshake([][]byte{c2.synack(true, map[bool]int{true: 1, false: 0}[c2.hasTS], 0x12)}, "established_sibling") {
+			return
+		}
+		for _, ttl := range ttls {
+			sib.send(ttl)
+		}
+		for i, s := range d.sends {
+			for _, g := range d.genuineReplies(s, i) {
+				sib.recvX(g.frame, "other_run:"+g.tag, -4, nil)
+			}
+		}
+		for i, s := range sib.sends {
+			for _, g := range sib.genuineReplies(s, i) {
+				d.recvX(g.frame, "other_run:"+g.tag, -4, nil)
+			}
+		}
 	})
 }
 
